@@ -1,5 +1,194 @@
 import Rivaas.Proto
-/- Driver for C10 (stub: not built yet) -/
-def main : IO UInt32 := do
-  IO.eprintln "driver for C10 is not built yet"
-  return 2
+import Rivaas.Spec.Contain
+/-
+Driver for C10. Case lines (see harness/c10/main.go):
+
+  <id> R <check> <wrap> <global> <chain> => <result> <nf> <result>*
+      chain  = n (hid acts)…       acts = n act…   act = N | A | C | W | R | P v | K acts
+      result = <trace: n ev…> <status> <body: n chunk…> <escaped: 0 | 1 v>
+      model chain: position 0 = recovery (`recovers`, acts [Next]); position 1 = the timeout
+      middleware with a 1h budget when wrap=1 (acts [Next]); then the handlers. Both are silent.
+      follow-ups: the same chain with every handler passing through; then the route [99: W] behind
+      the first <global> handlers (router-global middleware; they have no behaviour there: return).
+
+  <id> T <waitH> <custom> <prog: n hact…> => <status> <body> <escaped> <releasedEarly> <hsteps> <follow>
+      hact = W | D | X | aC | aE | aT | sH | aR | P<v>
+-/
+namespace Rivaas.DriverC10
+open Rivaas.Proto Rivaas.Chain
+
+def pActs : Nat → P (List Act)
+  | 0 => failure
+  | d+1 => list do
+    let k ← tok
+    if k == "N" then pure Act.next else if k == "A" then pure .abort else if k == "C" then pure .cancel
+    else if k == "W" then pure .write else if k == "R" then pure .ret
+    else if k == "P" then Act.panic <$> nat
+    else if k == "K" then Act.call <$> pActs d
+    else failure
+
+structure Res where
+  trace : List (Char × Nat)
+  status : Nat
+  body : List Nat
+  escaped : Option Nat
+  deriving BEq
+
+def pEv : P (Char × Nat) := do
+  let t ← tok
+  match t.toList with
+  | c :: rest =>
+    match (String.ofList rest).toNat? with
+    | some n => if c == 'e' || c == 'x' || c == 'u' then pure (c, n) else failure
+    | none => failure
+  | [] => failure
+
+def pRes : P Res := do
+  let trace ← list pEv
+  let status ← nat
+  let body ← list nat
+  let escaped ← opt nat
+  pure { trace, status, body, escaped }
+
+def recChunk : Nat := 100000
+def timeoutChunk : Nat := 100001
+def okHid : Nat := 99
+
+/-- ids of the chain positions: 0 for the silent ones -/
+def idsOf (nsil : Nat) (hids : List Nat) : List Nat := List.replicate nsil 0 ++ hids
+
+def evOfId : Char × Nat → Ev
+  | ('e', n) => .enter n
+  | ('x', n) => .exit n
+  | (_, n) => .unwound n
+
+def evPos : Ev → Nat | .enter k => k | .exit k => k | .unwound k => k
+def evMap (f : Nat → Nat) : Ev → Ev | .enter k => .enter (f k) | .exit k => .exit (f k) | .unwound k => .unwound (f k)
+
+/-- render positions as ids, drop silent positions -/
+def rendTrace (ids : List Nat) (t : List Ev) : List Ev :=
+  (t.filter fun e => ids.getD (evPos e) 0 != 0).map (evMap fun k => ids.getD k 0)
+
+def rendChunk (ids : List Nat) : Chunk → Chunk
+  | .h k => .h (ids.getD k 0)
+  | .rec500 => .rec500
+
+def codeOf (ids : List Nat) : Option Chunk → Nat
+  | none => 200
+  | some (.h k) => 210 + ids.getD k 0 % 80
+  | some .rec500 => 500
+
+def rend (ids : List Nat) : Render := fun r =>
+  (rendTrace ids r.trace, codeOf ids r.status, r.body.map (rendChunk ids))
+
+def seenOf (r : Res) : Seen :=
+  { trace := r.trace.map evOfId, status := r.status,
+    body := r.body.map fun n => if n == recChunk then Chunk.rec500 else Chunk.h n,
+    escaped := r.escaped }
+
+def showRes (o : Seen) : String :=
+  let ev : Ev → String | .enter k => s!"e{k}" | .exit k => s!"x{k}" | .unwound k => s!"u{k}"
+  let ch : Chunk → String | .h k => toString k | .rec500 => toString recChunk
+  let es := match o.escaped with | none => "0" | some v => s!"1 {v}"
+  s!"{o.trace.length} {" ".intercalate (o.trace.map ev)} {o.status} {o.body.length} {" ".intercalate (o.body.map ch)} {es}"
+
+/-- the machine's run of a chain, as the harness would see it -/
+def modelSeen (cfg : Cfg) (ids : List Nat) (progs : List Prog) : Option Seen :=
+  let s := exec cfg progs
+  if !s.stack.isEmpty && s.escaped.isNone then none
+  else some { trace := rendTrace ids s.trace, status := codeOf ids s.status,
+              body := s.body.map (rendChunk ids), escaped := s.escaped }
+
+def silent (wrap : Bool) : List Prog :=
+  [{ recovers := true, acts := [.next] }] ++ (if wrap then [{ acts := [.next] }] else [])
+
+def stepR (id : String) (inp obs : List String) : String :=
+  let pIn : P (Bool × Bool × Nat × List (Nat × List Act)) := do
+    let check ← bool; let wrap ← bool; let g ← nat
+    let ch ← list (do let h ← nat; let a ← pActs 8; pure (h, a))
+    pure (check, wrap, g, ch)
+  let pOut : P (Res × List Res) := do let r ← pRes; let fs ← list pRes; pure (r, fs)
+  match runP pIn inp, runP pOut obs with
+  | some (check, wrap, g, ch), some (r, fs) =>
+    let cfg : Cfg := { check := check }
+    let sil := silent wrap
+    let ids := idsOf sil.length (ch.map (·.1))
+    let progs := sil ++ ch.map fun (_, a) => ({ acts := a } : Prog)
+    -- follow-up 1: same chain, every handler passes through; follow-up 2: the /ok route
+    let progs1 := sil ++ ch.map fun _ => ({ acts := [.next] } : Prog)
+    let ids2 := idsOf sil.length ((ch.take g).map (·.1) ++ [okHid])
+    let progs2 := sil ++ (ch.take g).map (fun _ => ({ acts := [] } : Prog)) ++ [({ acts := [.write] } : Prog)]
+    match modelSeen cfg ids progs, modelSeen cfg ids progs1, modelSeen cfg ids2 progs2, fs with
+    | some m, some m1, some m2, [f1, f2] =>
+      let o := seenOf r
+      let mi := m == o && m1 == seenOf f1 && m2 == seenOf f2
+      let s := containOK check progs o [(progs1, rend ids, seenOf f1), (progs2, rend ids2, seenOf f2)]
+      verdict id mi s "-" (showRes m ++ " 2 " ++ showRes m1 ++ " " ++ showRes m2)
+    | _, _, _, _ => s!"{id} bad-case model could not run / wrong number of follow-ups"
+  | _, _ => s!"{id} bad-case"
+
+open Rivaas.Timeout in
+def pHAct : P HAct := do
+  let t ← tok
+  if t == "W" then pure .write else if t == "D" then pure .fireDl else if t == "X" then pure .firePc
+  else if t == "aC" then pure .awaitCtx else if t == "aE" then pure .awaitE else if t == "aT" then pure .awaitT else if t == "sH" then pure .signalH
+  else if t == "aR" then pure .awaitRet
+  else if t.startsWith "P" then
+    match (t.drop 1).toString.toNat? with
+    | some v => pure (.panic v)
+    | none => failure
+  else failure
+
+open Rivaas.Timeout in
+def tChunk (n : Nat) : Timeout.Chunk :=
+  if n == recChunk then .rec500 else if n == timeoutChunk then .t408 else .h
+
+open Rivaas.Timeout in
+def tStatus (c : Option Timeout.Chunk) : Nat :=
+  match c with
+  | none => 200
+  | some .h => 217
+  | some .t408 => 408
+  | some .rec500 => 500
+
+open Rivaas.Timeout in
+def stepT (id : String) (inp obs : List String) : String :=
+  let pIn : P (Bool × Bool × List HAct) := do
+    let w ← bool; let c ← bool; let p ← list pHAct; pure (w, c, p)
+  let pOut : P (Nat × List Nat × Option Nat × Bool × Nat × Nat) := do
+    let st ← nat; let b ← list nat; let e ← opt nat; let re ← bool; let hs ← nat; let f ← nat
+    pure (st, b, e, re, hs, f)
+  match runP pIn inp, runP pOut obs with
+  | some (waitH, _custom, prog), some (st, b, e, re, hs, f) =>
+    let fuel := 4 * prog.length + 16
+    let s1 := fair waitH true fuel (init prog)
+    let s2 := fair waitH false fuel (init prog)
+    -- the harness forces the order of events with channels: every fair schedule must agree
+    if obsOf s1 != obsOf s2 || s1.rpc != .returned || s2.rpc != .returned then
+      s!"{id} bad-case the program leaves the order of events open (or deadlocks) in the model"
+    else
+      let hsteps := prog.length - s1.hprog.length
+      let mObs := (tStatus s1.status, s1.body, s1.releasedEarly, hsteps, (229 : Nat))
+      let body := b.map tChunk
+      let iObs := (st, body, re, hs, f)
+      let hPanicked := match prog[hs - 1]? with | some (.panic _) => hs > 0 | _ => false
+      let io : TObs := { status := (if st == 408 then some .t408 else if st == 500 then some .rec500 else if st == 200 then none else some .h),
+                         body := body, escaped := e.isSome, releasedEarly := re, hPanicked := hPanicked }
+      let d := if dK10b prog [] then "K10b" else if dK10a prog [] then "K10a" else if dK10d prog [] then "K10d" else "-"
+      let chs : Timeout.Chunk → String | .h => "7" | .t408 => toString timeoutChunk | .rec500 => toString recChunk
+      verdict id (mObs == iObs && e.isNone) (timeoutOK io && f == 229) d
+        s!"{tStatus s1.status} {s1.body.length} {" ".intercalate (s1.body.map chs)} 0 {if s1.releasedEarly then 1 else 0} {hsteps} 229"
+  | _, _ => s!"{id} bad-case"
+
+def step (line : String) : String :=
+  match splitCase line with
+  | none => "? bad-line"
+  | some (id, inp, obs) =>
+    match inp with
+    | "R" :: rest => stepR id rest obs
+    | "T" :: rest => stepT id rest obs
+    | _ => s!"{id} bad-case unknown kind"
+
+end Rivaas.DriverC10
+
+def main : IO UInt32 := Rivaas.Proto.driverMain Rivaas.DriverC10.step
